@@ -54,6 +54,7 @@ class Ctx:
         self.states = 0
         self.transitions = 0
         self.tlc_runs = []
+        self.proofs = []
         self.traces_validated = 0
         self.evaluations = 0
         self.distinct_nontrivial = 0
@@ -171,6 +172,32 @@ class Ctx:
                  % (module, res.get("distinct"), res.get("generated"), ncap, res["wall_s"]))
         shutil.rmtree(os.path.join(d, "meta"), True)
         return res
+
+    def tlaps(self, module, timeout=1500):
+        """Check the TLAPS proofs of specs/<module>.tla with tlapm in a private scratch copy (no fingerprint cache is
+        reused).  Anything but 'All N obligations proved' is a defect of the specification / proof: exit 2, no verdict."""
+        with self.lock:
+            self.ntlc += 1
+            d = os.path.join(self.scratch, "tlaps%d" % self.ntlc)
+        os.makedirs(d)
+        for f in os.listdir(SPECS):
+            if f.endswith(".tla"):
+                shutil.copy(os.path.join(SPECS, f), d)
+        t0 = time.time()
+        try:
+            p = subprocess.run(["tlapm", "--threads", str(NCPU), "--cleanfp", module + ".tla"], cwd=d, stdout=subprocess.PIPE,
+                               stderr=subprocess.STDOUT, text=True, errors="replace", timeout=timeout)
+        except subprocess.TimeoutExpired:
+            raise MachineryError("tlapm timeout after %ds on %s" % (timeout, module))
+        m = re.search(r"All (\d+) obligations? proved", p.stdout)
+        if p.returncode != 0 or not m:
+            raise MachineryError("tlapm did not prove %s (rc=%s):\n%s" % (module, p.returncode, "\n".join(p.stdout.splitlines()[-30:])))
+        n = int(m.group(1))
+        with self.lock:
+            self.proofs.append({"module": module, "obligations_proved": n, "wall_s": round(time.time() - t0, 1)})
+        self.log("TLAPS %s: all %d obligations proved, %.1fs" % (module, n, time.time() - t0))
+        shutil.rmtree(d, True)
+        return n
 
     def tlc_trace(self, module, cfg, trace_file, label, target, record_args=None, timeout=900, heap="4g"):
         """Trace validation (B2): TLC checks that the recorded trace is a behaviour of the trace spec.
@@ -421,6 +448,7 @@ class Ctx:
             "rule": rule,
             "samples": self.samples[:6] if self.samples else [],
             "tlc_runs": self.tlc_runs,
+            "tlaps_proofs": self.proofs,
             "known_findings_seen": sorted(known_hits.keys()),
             "notes": self.notes,
         }
